@@ -324,7 +324,7 @@ func (rw *rewriter) retime(f *ast.File) map[string]bool {
 		switch pn.Imported().Path() {
 		case "time":
 			switch sel.Sel.Name {
-			case "Now", "Since", "Until", "Sleep", "After", "Tick":
+			case "Now", "Since", "Until", "Sleep", "After", "Tick", "NewTimer", "AfterFunc", "NewTicker":
 				touched[id.Name] = true
 				id.Name = "simrt"
 			}
@@ -378,6 +378,24 @@ func (rw *rewriter) recvExprs(f *ast.File) {
 	ast.Inspect(f, func(n ast.Node) bool {
 		if n == nil || protected[n] {
 			return !protected[n]
+		}
+		if call, ok := n.(*ast.CallExpr); ok {
+			if sel, ok := call.Fun.(*ast.SelectorExpr); ok {
+				if si := rw.info.Selections[sel]; si != nil {
+					if fn, ok := si.Obj().(*types.Func); ok && fn.Pkg() != nil && fn.Pkg().Path() == "time" {
+						name := map[string]string{"(*time.Timer).Stop": "TimerStop", "(*time.Timer).Reset": "TimerReset",
+							"(*time.Ticker).Stop": "TickerStop", "(*time.Ticker).Reset": "TickerReset"}[fn.FullName()]
+						if name != "" {
+							recv := sel.X
+							if _, isPtr := rw.info.TypeOf(recv).(*types.Pointer); !isPtr {
+								recv = &ast.UnaryExpr{Op: token.AND, X: recv}
+							}
+							call.Fun = simrtFn(name)
+							call.Args = append([]ast.Expr{recv}, call.Args...)
+						}
+					}
+				}
+			}
 		}
 		if as, ok := n.(*ast.AssignStmt); ok && len(as.Lhs) == 2 && len(as.Rhs) == 1 {
 			if u, ok := as.Rhs[0].(*ast.UnaryExpr); ok && u.Op == token.ARROW && rw.isChan(u.X) {
@@ -500,6 +518,7 @@ func (rw *rewriter) instrument(f *ast.File) int {
 	n := 0
 	var list func(stmts []ast.Stmt) []ast.Stmt
 	var walk func(node ast.Node)
+	labelled := false // the statement being rewritten carries a label (break L / continue L must keep working)
 	methodValue := func(sel *ast.SelectorExpr, name string) ast.Expr {
 		return &ast.SelectorExpr{X: sel.X, Sel: ast.NewIdent(name)}
 	}
@@ -574,13 +593,48 @@ func (rw *rewriter) instrument(f *ast.File) int {
 				}
 				bodies = append(bodies, cc.Body...)
 			}
-			if rw.typed && !hasDefault && len(st.Body.List) > 0 && !hasUnlabeledContinue(bodies) {
+			if rw.typed && !hasDefault && !labelled && len(st.Body.List) > 0 && !hasUnlabeledContinue(bodies) {
+				// The select now sits in a loop, but its channel operands and send
+				// values must still be evaluated exactly once (a time.After in a
+				// case would otherwise start a new timer at every retry).
+				var pre []ast.Stmt
+				hoist := func(e ast.Expr) ast.Expr {
+					if id, ok := e.(*ast.Ident); ok && id.Name != "nil" {
+						return e
+					}
+					tmp := ast.NewIdent("simrtSel" + strconv.Itoa(n))
+					n++
+					pre = append(pre, &ast.AssignStmt{Lhs: []ast.Expr{tmp}, Tok: token.DEFINE, Rhs: []ast.Expr{e}})
+					return tmp
+				}
+				for _, c := range st.Body.List {
+					switch cm := c.(*ast.CommClause).Comm.(type) {
+					case *ast.SendStmt:
+						cm.Chan = hoist(cm.Chan)
+						cm.Value = hoist(cm.Value)
+					case *ast.ExprStmt:
+						if u, ok := cm.X.(*ast.UnaryExpr); ok && u.Op == token.ARROW {
+							u.X = hoist(u.X)
+						}
+					case *ast.AssignStmt:
+						if len(cm.Rhs) == 1 {
+							if u, ok := cm.Rhs[0].(*ast.UnaryExpr); ok && u.Op == token.ARROW {
+								u.X = hoist(u.X)
+							}
+						}
+					}
+				}
 				again := &ast.CommClause{Body: []ast.Stmt{
 					&ast.IfStmt{Cond: &ast.UnaryExpr{Op: token.NOT, X: &ast.CallExpr{Fun: simrtFn("Blocked")}}, Body: &ast.BlockStmt{List: []ast.Stmt{simrtCall("RealBlock")}}},
 					&ast.BranchStmt{Tok: token.CONTINUE},
 				}}
 				st.Body.List = append(st.Body.List, again)
-				return []ast.Stmt{&ast.ForStmt{Body: &ast.BlockStmt{List: []ast.Stmt{st, &ast.BranchStmt{Tok: token.BREAK}}}}}
+				loop := &ast.ForStmt{Body: &ast.BlockStmt{List: []ast.Stmt{st, &ast.BranchStmt{Tok: token.BREAK}}}}
+				if len(pre) == 0 {
+					return []ast.Stmt{loop}
+				}
+				// a block keeps the temporaries local (the statement may be labelled)
+				return []ast.Stmt{&ast.BlockStmt{List: append(pre, loop)}}
 			}
 		case *ast.GoStmt:
 			// go f(args) -> simrt.Spawn(func() { f(args) }) with the arguments
@@ -612,7 +666,9 @@ func (rw *rewriter) instrument(f *ast.File) int {
 			n++
 			if ls, ok := s.(*ast.LabeledStmt); ok {
 				// keep the label on the (possibly rewritten) statement
+				labelled = true
 				rs := rewriteStmt(ls.Stmt)
+				labelled = false
 				ls.Stmt = rs[len(rs)-1]
 				out = append(out, rs[:len(rs)-1]...)
 				out = append(out, ls)
